@@ -75,6 +75,22 @@ def oracle(line, width, keep, delims, ps, ds):
     return bad
 
 
+def parse_bracket(g):
+    """[p1]d1[p2]d2... (answers of the bracketing child re-joined) -> (pieces, withheld runs) or None"""
+    ps, ds = [], []
+    rest = g
+    while rest:
+        if not rest.startswith(b"[") or b"]" not in rest:
+            return None
+        e = rest.index(b"]")
+        ps.append(rest[1:e])
+        rest = rest[e + 1:]
+        nx = rest.index(b"[") if b"[" in rest else len(rest)
+        ds.append(rest[:nx])
+        rest = rest[nx:]
+    return ps, ds
+
+
 def gen_exhaustive(c, maxlen):
     syms = [u8(SYM[k]) for k in "aeEG_."]
     lines = [b""]
@@ -86,10 +102,14 @@ def gen_exhaustive(c, maxlen):
 
 def rand_line(rng, delims, n):
     pool = [0x61, 0x62, 0x7A, 0x0D, 0x41, 0xE9, 0x3A9, 0x7FF, 0x800, 0x20AC, 0xFFFD, 0xD7FF, 0xE000, 0x10000, 0x1F600, 0x10FFFF]
+    # supplementary-plane characters whose low 16 bits equal a delimiter (they are NOT delimiters)
+    alias = [p * 0x10000 + d for d in delims for p in (1, 2, 16) if d <= 0xFFFF and p * 0x10000 + d <= 0x10FFFF]
     out = []
     while len(out) < n:
         r = rng.random()
-        if delims and r < 0.35:
+        if alias and r < 0.12:
+            out.append(rng.choice(alias))
+        elif delims and r < 0.40:
             run = rng.choice((1, 1, 2, 3, 5))
             out += [rng.choice(delims) for _ in range(run)]
         else:
@@ -192,6 +212,11 @@ def main(argv):
     # defaults of the tool on ASCII text
     for i in range(200 if quick else 2000):
         cases.append((80, True, [58, 44, 32, 45, 46, 47], rand_line(c.rng, [58, 44, 32, 45, 46, 47], c.rng.choice((79, 80, 81, 160, 200, 400)))))
+    # short cases with supplementary characters whose low 16 bits equal a delimiter (U+1002C ~ ',', U+10020 ~ ' ')
+    for line in ("a\U0001002cb", "ab\U00010020cd", "\U0001002c", "x \U00020020,\U0010002c y"):
+        for width in (1, 2, 5):
+            for keep in (True, False):
+                cases.insert(n_ex, (width, keep, [44, 32], line.encode("utf-8")))
     n_valid = len(cases)
     cases += gen_malformed(c, 1500 if quick else 15000)
     lines = ["DEFAULTS"] + [wcase(*k) for k in cases]
@@ -578,6 +603,20 @@ def main(argv):
                "stderr": se.decode("utf-8", "replace")[-300:]}
         if valid and st != 0:
             c.violation("delims-option: -d %r is valid UTF-8 but foldfilter ended with status %s" % (d, st), rep)
+        if valid and st == 0:
+            # piece level: the pieces/withheld runs the bracketing child shows must obey C07 for exactly the requested list
+            want_delims = [ord(ch) for ch in d.decode("utf-8")]
+            ols = so.split(b"\n")[:-1]
+            ils = dinp.split(b"\n")[:-1]
+            for l, g in zip(ils, ols):
+                pb = parse_bracket(g)
+                if pb is None:
+                    c.violation("delims-option: output line %r is not of the form [piece]run..." % g, rep)
+                    break
+                bad = oracle(l, 3, bool(i % 2), want_delims, pb[0], pb[1])
+                if bad:
+                    c.violation("%s (option -d %r%s): line %r: %s" % (bad[0][0], d, "" if i % 2 else " with -s", l, bad[0][1]), dict(rep, kind=bad[0][0], requested_delimiters=want_delims))
+                    break
         if not valid and (st == 0 or st == "timeout" or (isinstance(st, int) and (st < 0 or st >= 128))):
             c.violation("delims-option: -d %r is not valid UTF-8; expected a usage error, got status %s" % (d, st), rep)
         if dm is not None:
